@@ -1066,6 +1066,14 @@ func (s *fatSys) apply(op fsOp) (err error, viols []explore.Viol) {
 			}
 			made = append(made, name)
 		}
+		// the loop may have ended for lack of inodes or directory slots rather than of blocks: whatever large free run is left
+		// is used up by growing a file that stays, so that the only free space afterwards is the holes
+		if len(made) > 0 {
+			_, _ = s.apply(fsOp{Kind: "write", Path: made[0], Off: "eof", Len: "p15"})
+			_, _ = s.apply(fsOp{Kind: "write", Path: made[0], Off: "eof", Len: "64c"})
+			_, _ = s.apply(fsOp{Kind: "write", Path: made[0], Off: "eof", Len: "16c"})
+			_, _ = s.apply(fsOp{Kind: "fillappend", Path: made[0]})
+		}
 		for i := 1; i < len(made); i += 2 {
 			if e, _ := s.apply(fsOp{Kind: "remove", Path: made[i]}); e != nil {
 				return e, viols
